@@ -375,16 +375,44 @@ def full_ext_map():
 # ------------------------------------------------------------------------------------------------ layer 2: stateful SCTP
 
 
+def wellformed_out_of_context(rng, st, victim, to_victim, tag_ok):
+    """-> (template, first chunk bytes, whole datagram or None): datagrams a real peer could have produced, at the wrong moment -
+    verbatim replays of what it sent earlier (handshake chunks included), ABORT, a RE-CONFIG response that matches the victim's
+    pending request, a reset request for streams that may or may not exist."""
+    kind = rng.choice(["replay", "replay-handshake", "replay-handshake", "abort", "reconfig-response", "reconfig-response", "reconfig-request"])
+    sctp = victim.sctp
+    if kind in ("replay", "replay-handshake") and to_victim:
+        pool = to_victim
+        if kind == "replay-handshake":
+            pool = [d for d in to_victim if len(d) > 12 and d[12] in (1, 2, 10, 11)] or to_victim
+        d = rng.choice(pool)
+        return kind, d[12:], d
+    if kind == "abort":
+        return kind, raw_chunk(6, 0, b""), None
+    if kind == "reconfig-response":
+        req = getattr(sctp, "_reconfig_request", None)
+        seq = req.request_sequence if req is not None else (getattr(sctp, "_reconfig_request_seq", 0) - rng.choice([0, 1])) & 0xFFFFFFFF
+        val = struct.pack("!LL", seq, rng.choice([0, 1, 1, 2, 6]))
+        return kind, raw_chunk(130, 0, struct.pack("!HH", 16, len(val) + 4) + val), None
+    seq = (getattr(sctp, "_reconfig_response_seq", 0) + rng.choice([0, 1, 1, 2])) & 0xFFFFFFFF
+    streams = rng.sample([0, 1, 2, 3, 600], rng.randint(0, 3))
+    val = struct.pack("!LLL", seq, rng.getrandbits(32), getattr(sctp, "_last_received_tsn", 0) or 0) + b"".join(struct.pack("!H", x) for x in streams)
+    return "reconfig-request", raw_chunk(130, 0, struct.pack("!HH", 13, len(val) + 4) + val), None
+
+
 def case_sctp(rng, out, index):
     from vt.rigs.sctp import SctpRig
 
-    state = rng.choice(["established-idle", "established-idle", "data-outstanding", "handshake", "before-start", "mid-reset"])
+    state = rng.choice(["established-idle", "established-idle", "data-outstanding", "handshake", "before-start", "mid-reset", "mid-reset-either"])
     reject = rng.random() < 0.25
     desc = {"kind": "sctp", "state": state, "must_be_rejected": reject}
     rig = SctpRig(rng, heal=0.0, spec_ab={"latency": 0.02}, spec_ba={"latency": 0.02})
     try:
         st = rig.st
         A, B = rig.A, rig.B
+        captured = {"A>B": [], "B>A": []}
+        rig.link_ab.taps.append(lambda ev, n, data, kind, delays: captured["A>B"].append(bytes(data)) if ev == "tx" else None)
+        rig.link_ba.taps.append(lambda ev, n, data, kind, delays: captured["B>A"].append(bytes(data)) if ev == "tx" else None)
         chans = [rig.create_channel(A, "c0"), rig.create_channel(B, "c1", ordered=False)]
         if state != "before-start":
             rig.start(A)
@@ -401,19 +429,32 @@ def case_sctp(rng, out, index):
         if state == "mid-reset" and chans[0].obj.get("A") is not None:
             rig.close_channel(A, chans[0])
             rig.run_until(1.005)
+        if state == "mid-reset-either":
+            closer = rng.choice([A, B])
+            ch = chans[0] if closer is A else chans[1]
+            if ch.obj.get(closer.name) is not None:
+                rig.close_channel(closer, ch)
+                rig.run_until(1.005)
         victim = rng.choice([A, B])
         peer = rig.other(victim)
         tag_ok = getattr(victim.sctp, "_local_verification_tag", 0)
+        # well-formed datagrams out of context: everything the peer really sent to the victim so far may be replayed verbatim
+        to_victim = captured["B>A" if victim is A else "A>B"]
+        focused = state.startswith("mid-reset") or rng.random() < 0.3
         templates = []
         before = None
-        n_dgrams = rng.randint(1, 5)
+        n_dgrams = rng.randint(2, 7) if focused else rng.randint(1, 5)
         teardown = False
         for _ in range(n_dgrams):
             base_tsn = getattr(victim.sctp, "_last_received_tsn", None)
-            tname, chunk = hostile_sctp_chunk(rng, base_tsn=base_tsn)
+            whole = None
+            if focused and not reject:
+                tname, chunk, whole = wellformed_out_of_context(rng, st, victim, to_victim, tag_ok)
+            else:
+                tname, chunk = hostile_sctp_chunk(rng, base_tsn=base_tsn)
             templates.append(tname)
             extra = b""
-            if rng.random() < 0.25:
+            if whole is None and rng.random() < 0.25:
                 tname2, extra = hostile_sctp_chunk(rng, base_tsn=base_tsn)
                 templates.append(tname2)
             body = chunk + extra
@@ -429,7 +470,7 @@ def case_sctp(rng, out, index):
                     data = sctp_wrap(st, body, tag=tag_ok)[: rng.choice([0, 1, 11, 12, 15])]
                 templates[-1] = "reject:" + how
             else:
-                data = sctp_wrap(st, body, tag=tag_ok if not chunk[0] == 1 else 0)
+                data = whole if whole is not None else sctp_wrap(st, body, tag=tag_ok if not chunk[0] == 1 else 0)
                 if chunk[0] in (6, 7, 8, 14) or (extra and extra[0] in (6, 7, 8, 14)) or (chunk[0] == 9 and state == "handshake"):
                     teardown = True
             if victim.dtls.receiver is None:
